@@ -144,7 +144,32 @@ fn compare_views(lib: &Lib, model: &Model, at: &str, what: &str) -> Result<View,
 	if lv != mv {
 		return Err(Failure::new("state", format!("{}: after {} the library graph differs from the reference: {}", at, what, view_diff(&lv, &mv))).with_key("state"));
 	}
+	check_structure(&lv, at)?;
 	Ok(lv)
+}
+
+/// Internal consistency of the library's graph on its own: channels and nodes reference each other
+/// exactly, and no node is kept without channels.
+fn check_structure(v: &View, at: &str) -> CaseResult {
+	for (scid, c) in v.chans.iter() {
+		for n in [&c.n1, &c.n2] {
+			if !v.nodes.get(n).map(|x| x.chans.contains(scid)).unwrap_or(false) {
+				return Err(Failure::new("structure", format!("{}: channel {} names node {} which does not list it", at, scid, hex(&n[..6]))).with_key("structure/channel-node"));
+			}
+		}
+	}
+	for (id, n) in v.nodes.iter() {
+		if n.chans.is_empty() {
+			return Err(Failure::new("structure", format!("{}: node {} is kept without channels", at, hex(&id[..6]))).with_key("structure/empty-node"));
+		}
+		for (i, scid) in n.chans.iter().enumerate() {
+			let ok = v.chans.get(scid).map(|c| c.n1 == *id || c.n2 == *id).unwrap_or(false);
+			if !ok || (i > 0 && n.chans[i - 1] == *scid) {
+				return Err(Failure::new("structure", format!("{}: node {} lists channel {} which is unknown, not its own, or listed twice", at, hex(&id[..6]), scid)).with_key("structure/node-channel"));
+			}
+		}
+	}
+	Ok(())
 }
 
 /// Reference-free form of "never replaces information with an older or equal timestamp": across the
@@ -327,6 +352,8 @@ fn model_oracle(c: &MCase, ctx: &mut Ctx) -> CaseResult {
 	let forged = seen.iter().any(|s| s.starts_with("rej:") && is_forged(&s[4..]));
 	let stale = seen.iter().any(|s| s.starts_with("rej:") && is_not_current(&s[4..]));
 	ctx.nontrivial_if(forged && stale && seen.contains("acc:upd"));
+	ctx.label_if(model.replacements > 0, "acc:ann-replacing-known-channel");
+	ctx.label_if(model.comebacks > 0, "acc:ann-after-removal-forgotten");
 	ctx.label_if(applied_updates >= 5, "depth:5+updates-applied");
 	ctx.label_if(applied_updates >= 15, "depth:15+updates-applied");
 	for s in seen.iter() {
